@@ -79,6 +79,15 @@ def main(replay=None):
             add("pin", {"m.sqf": text}, expect_body=exp.encode("latin-1"), pin=name)
         for t in ppgen.RECURSIVE:
             add("recursive", {"m.sqf": t})
+        # #undef of a macro the text did not define itself (the runtime's predefined ones): afterwards the name is plain text and
+        # #ifdef takes the other branch - also when the text had redefined it in between (implementation only: the reference
+        # expander starts without predefined macros)
+        for k, nm in enumerate(["_SQFVM", "__GAME_VER__", "__GAME_VER_MAJ__", "__GAME_BUILD__", "_SQFVM_RUNTIME_VERSION_MAJOR", "__A3_DEBUG__"]):
+            for variant in range(3):
+                pre = ["", "#define %s 5\n" % nm, "#ifdef %s\nBEFORE_%d\n#endif\n" % (nm, k)][variant]
+                t = (pre + "#undef %s\n#ifdef %s\nPREDEF_YES_%d_\n#else\nPREDEF_NO_%d_\n#endif\n#ifndef %s\nPREDEF_NDEF_%d_\n#endif\ny%d = %s;\n"
+                     % (nm, nm, k, k, nm, k, k, nm))
+                add("predefined", {"m.sqf": t}, must_have=["PREDEF_NO_%d_" % k, "PREDEF_NDEF_%d_" % k, "y%d = %s;" % (k, nm)], must_not=["PREDEF_YES_%d_" % k])
         for i in range(5000 if thorough else 600):
             t = ppgen.passthrough_case(rng)
             add("passthrough", {"m.sqf": t}, expect_body=t.encode("latin-1"))
@@ -163,10 +172,14 @@ def main(replay=None):
                     bad = "text of an inactive branch (or the effect of a directive in it) reaches the output: " + s
         elif c["expect_body"] is not None:
             bad = "preprocessing fails on a text it must pass through: " + il[:200]
+        elif c["kind"] == "predefined":
+            bad = "preprocessing fails on a text that only undefines a predefined macro and tests it: " + il[:200]
         if bad:
             run.violation(bad, rep)
             continue
         # ---- 2. the reference expander
+        if c["kind"] == "predefined":
+            continue
         if not ml.startswith("R="):
             stats["model_overflow"] += 1
             continue
